@@ -74,6 +74,12 @@ func (b *Buffer) bytes(v goja.Value) []byte {
 		}
 		b.converting = true
 		defer func() { b.converting = false }()
+		// The export below allocates as many elements as an array-like claims to have before it reads any.
+		if l := o.Get("length"); l != nil && !goja.IsUndefined(l) {
+			if n := l.ToInteger(); n > maxLength {
+				panic(errors.NewArgumentOutOfRangeError(b.r, "length", l))
+			}
+		}
 	}
 	return Bytes(b.r, v)
 }
